@@ -25,7 +25,8 @@ GOALS = {
     'quick': ['deferral across a call boundary', 'truncated interval',
               'quiet poll', 'two processes applied in one batch'],
     'thorough': ['deferral across a call boundary', 'truncated interval',
-                 'quiet poll', 'two processes applied in one batch'],
+                 'quiet poll', 'two processes applied in one batch',
+                 'a process runs in a worker'],
 }
 STUBS = sched_stubs = [
     'stub processes (pure): symbolic timestep per process or per poll, symbolic '
@@ -34,13 +35,15 @@ STUBS = sched_stubs = [
     'variable', 'recording user Emitter']
 ASSUMPTIONS = [
     'integer time; timesteps >= 1',
-    'claims are made for the schedules on which the clock is monotone '
-    '(ctx.assume of C03.monotone; the other schedules are reported by C03)',
+    'claims are made for the schedules on which the clock is monotone and '
+    'every pass advances it (ctx.assume of C03.monotone and C03.progress; '
+    'the other schedules - the adaptive re-poll finding - are reported by '
+    'C03)',
     'paths needing more than K passes per call are cut (cut_unwinding)']
 BOUNDS = {
     'quick': 'const(N<=3,M=2,B=4), adaptive(N=1,M=2,B=4; N=2,M=1,B=3), '
              'cond-const(N=2,M=2,B=3), cond-fresh(N=1,M=2,B=3; N=2,M=1,B=3), '
-             'wide(N=2,M=1,B=10^6,K=4); last call forced (update()), earlier '
+             'wide(N=2,M=1,B=10^6,K=4), parallel(N=2,M=2,B=3: each process serial or in a worker of the transport stub, symbolic); last call forced (update()), earlier '
              'force flags symbolic; deltas in [-3,3]',
     'thorough': 'const(N<=3,M<=3,B<=6), adaptive(N=2,M=2,B=3), cond-const(N=3,'
                 'M=2,B=4), cond-fresh(N=2,M=2,B=3), wide',
@@ -70,6 +73,8 @@ def jobs(tier):
         J.append(_cfg('condfresh-N1', 1, 2, 3, 'const', 'fresh', tier))
         J.append(_cfg('condfresh-N2', 2, 1, 3, 'const', 'fresh', tier))
         J.append(_cfg('wide-N2', 2, 1, 10 ** 6, 'const', 'none', tier, K=4))
+        J.append(_cfg('parallel-N2', 2, 2, 3, 'const', 'none', tier,
+                      parallel=True))
     else:
         for N, M, B in ((1, 3, 6), (2, 3, 5), (3, 2, 4), (2, 2, 8)):
             J.append(_cfg('const-N%d-M%d-B%d' % (N, M, B), N, M, B, 'const',
@@ -83,6 +88,10 @@ def jobs(tier):
         J.append(_cfg('wide-N2', 2, 2, 10 ** 6, 'const', 'none', tier, K=6))
         J.append(_cfg('wide-adaptive-N2', 2, 1, 10 ** 6, 'adaptive', 'none',
                       tier, K=5))
+        J.append(_cfg('parallel-N2', 2, 2, 4, 'const', 'none', tier,
+                      parallel=True))
+        J.append(_cfg('parallel-condfresh-N2', 2, 1, 3, 'const', 'fresh', tier,
+                      parallel=True))
     return J
 
 
@@ -149,7 +158,7 @@ def body(ctx, cfg):
                   info=lambda: repr(crashed))
         return
     # claims are about schedules on which the clock is monotone (C03)
-    ctx.assume(sched.monotone_expr(run))
+    ctx.assume(AND(sched.monotone_expr(run), sched.progress_expr(run)))
     describe = lambda: sched.describe(run, getattr(ctx, 'm', {}))
     # ---- once
     counts = {}
